@@ -38,6 +38,9 @@ def _run_jobs(exe, jobs):
             cmd += ["--" + k, str(v)]
         cmd += ["--out", j["out"]]
         p = core.sh(cmd, timeout=1200)
+        if p.returncode == 3:      # the library crashed inside a monitored call: the harness names the call (not a model failure)
+            j["crash"] = _crash_of(p); j["stats"] = {}
+            return j
         if p.returncode != 0:
             raise core.ModelFailure("harness failed (%d): %s\n%s" % (p.returncode, " ".join(cmd), p.stderr.decode(errors="replace")[-2000:]))
         try:
@@ -46,6 +49,21 @@ def _run_jobs(exe, jobs):
             raise core.ModelFailure("harness printed no statistics: " + " ".join(cmd))
         return j
     return core.run_parallel(one, jobs)
+
+
+def _crash_of(p):
+    for line in reversed(p.stderr.decode(errors="replace").splitlines()):
+        if line.startswith('{"crash"'):
+            return json.loads(line)
+    raise core.ModelFailure("harness exit 3 without a crash record")
+
+
+def _crash_rec(j):
+    c = j["crash"]
+    return {"prop": PROP, "clause": "library_call_crashed", "detail": "signal %d in %s(%s)" % (c["crash"], c["fn"], c["cfg"]),
+            "case": {"e": "Path", "p": c["p"], "emb": c["emb"], "fam": j["args"].get("fam")}, "event": c,
+            "harness": {"sub": "c20", "args": {"eps": j["args"].get("eps", "0/1,1/2,1/1,3/2,2/1,3/1,5/1,8/1,1/4,7/2"), "mds": j["args"].get("mds", MDS),
+                                               "emb": c["emb"], "seed": j["args"].get("seed", 1), "lite": j["args"].get("lite", 0)}}}
 
 
 def _eps_of(ev):
@@ -101,6 +119,8 @@ def _replay_rec(rec):
         cmd += ["--" + k, str(v)]
     cmd += ["--out", out]
     p = core.sh(cmd, timeout=300)
+    if p.returncode == 3:
+        return rec["clause"] == "library_call_crashed"
     if p.returncode != 0:
         raise core.ModelFailure("replay harness failed: " + p.stderr.decode(errors="replace")[-1000:])
     res = core.validate_traces("C20Trace", "C20Trace.cfg", [out], timeout=300)
@@ -152,6 +172,11 @@ def run(ctx):
         for k in range(64):       # all paths with 6 vertices (and fewer) on the 3x3 grid
             add("c20", fam="in", **{"in": gens[2][1]}, skip=k, stride=64, emb="0", eps=EPS, mds=MDS, seed=s, lite=1)
     jobs = _run_jobs(exe, J)
+    crashed = [j for j in jobs if "crash" in j]
+    for j in crashed:
+        ctx.fails.append(_crash_rec(j))
+    jobs = [j for j in jobs if "crash" not in j]
+    ctx.extra["harness_jobs_ended_by_a_crash_in_a_library_call"] = len(crashed)
     tot = {}
     for j in jobs:
         for k, v in j["stats"].items():
@@ -171,9 +196,22 @@ def run(ctx):
                     ctx.sample(ev)
     # ---- TLC decides
     files = [j["out"] for j in jobs]
-    res = core.validate_traces("C20Trace", "C20Trace.cfg", files, timeout=1500, heap="3g")
+    res = core.validate_traces("C20Trace", "C20Trace.cfg", files, timeout=2400, heap="2g")
     ctx.traces = sum(core.count_lines(f) for f in files)
     _collect(ctx, res, {j["out"]: j for j in jobs})
+    tot5 = [0, 0, 0, 0, 0]
+    for _, r in res:
+        for n in r.notes:
+            if n["kind"] == "STATS":
+                tot5 = [a + int(b) for a, b in zip(tot5, n["detail"].strip("<>").split(","))]
+    ctx.extra["judged_by_tlc"] = {"path_calls": tot5[0], "trimcollinear_calls_on_clean_input": tot5[1], "rdp_calls_that_removed_vertices": tot5[2],
+                                  "simplifypath_calls_that_removed_vertices": tot5[3], "ellipse_calls": tot5[4]}
+    if crashed:
+        pass
+    elif tot5[0] + tot5[4] != ctx.evaluations:
+        raise core.ModelFailure("TLC judged %d calls but the harness recorded %d" % (tot5[0] + tot5[4], ctx.evaluations))
+    if min(tot5) == 0 and not crashed:
+        raise core.ModelFailure("vacuity guard: a call class was never exercised: %s" % tot5)
     # ---- design-level runs (thorough: after the trace validation so that they get the cores)
     if not q:
         fmc = [pool.submit(do_mc, m) for m in mc]
